@@ -126,15 +126,17 @@ def parseDigits : Str → Nat → Nat → Bool → Option (Nat × Nat)
       | some d => parseDigits cs (acc * 10 + d) (n + 1) true
       | none => none
 
+/-- the optional sign in front of the digits -/
+def splitSign : Str → Bool × Str
+  | '-' :: r => (true, r)
+  | '+' :: r => (false, r)
+  | r => (false, r)
+
 /-- `int(s)` for a `str`; `none` = `ValueError` (also for more than `sys.get_int_max_str_digits()` digits). -/
 def pyInt (s : Str) : Option Int :=
-  let t := pyStrip s
-  let (neg, body) : Bool × Str := match t with
-    | '-' :: r => (true, r)
-    | '+' :: r => (false, r)
-    | r => (false, r)
-  match parseDigits body 0 0 false with
-  | some (v, n) => if n > maxStrDigits then none else some (if neg then - (v : Int) else (v : Int))
+  let sb := splitSign (pyStrip s)
+  match parseDigits sb.2 0 0 false with
+  | some (v, n) => if n > maxStrDigits then none else some (if sb.1 then - (v : Int) else (v : Int))
   | none => none
 
 /-- `'%s' % n` for an `int` -/
